@@ -94,7 +94,7 @@ def inline_helpers(prog, modules=None, exclude=(), classes=True):
     """inline callback: expand every resolvable package callee defined in
     one of `modules` (all when None) - methods called on self/cls and plain
     functions - except the excluded quals and generators."""
-    def cb(call, frame):
+    def pick(call, frame, gens):
         g = prog.callee_of(frame, call)
         if g is None or g.qual in exclude:
             return None
@@ -104,10 +104,15 @@ def inline_helpers(prog, modules=None, exclude=(), classes=True):
             return None
         if g.name == '__init__':
             return None
-        if any(isinstance(x, (ast.Yield, ast.YieldFrom))
-               for x in ast.walk(g.node)):
+        if not gens and any(isinstance(x, (ast.Yield, ast.YieldFrom))
+                            for x in ast.walk(g.node)):
             return None
         return g
+
+    def cb(call, frame):
+        return pick(call, frame, False)
+    # generator functions, for loops walked through them (paths._fuse)
+    cb.gen = lambda call, frame: pick(call, frame, True)
     return cb
 
 
